@@ -31,14 +31,14 @@ func libLenFacts(call *ssa.Call, resultIdx int) (minLen int64, needErrNil bool, 
 
 // justification table: KIND|function|construct → reason. One line per site, no wildcards.
 var justifications = map[string]string{
-	"IDX|pfcpiface.(*UP4).sendCreate|all.pdrs[i]":                        "relational: sendCreate is only called for an establishment, where the handler appends every PDR to session.pdrs and to addPDRs in lock-step from empty lists, so len(all.pdrs) == len(updated.pdrs) (secondary check R01.J1: the establishment loop appends to both on every path)",
-	"IDX|pfcpiface.(*UP4).sendCreate|all.pdrs[i] #2":                     "same relational argument as the previous line (second use of the same index in the loop body)",
-	"NIL|pfcpiface.releaseAllocatedIPs|ippool.DeallocIP(session.localSEID)": "reached only for a PDR with allocIPFlag set, which parseUEAddressIE sets only after ippool.LookupOrAllocIP succeeded on a non-nil pool (secondary check R01.J5: the store of allocIPFlag is dominated by the nil check and the successful allocation)",
-	"IDX|pfcpiface.(*PFCPSession).MarkSessionQer|s.pdrs[i].qerIDList[:idx]":   "findItemIndex returns a value in [0, len(slice)] (loop index or len) and the use is guarded by idx != len(s.pdrs[i].qerIDList) (secondary check R01.J2 on findItemIndex's returns)",
-	"IDX|pfcpiface.(*PFCPSession).MarkSessionQer|s.pdrs[i].qerIDList[idx+1:]": "same guard as the previous line: idx < len, so idx+1 <= len",
-	"BLK|pfcpiface.(*PFCPConn).shutdownConn|pConn.done <- rAddr":           "node-level completion channel with capacity 100, drained by PFCPNode.Serve and, at stop, by waitForPFCPConns; never closed (C10 R10.2)",
-	"BLK|pfcpiface.(*bess).SendEndMarkers|b.endMarkerChan <- eMarker":        "channel of capacity 1024 created in SetUpfInfo; reported under C14/C10 scope only if the consumer loop is missing (R01.J3 checks that SetUpfInfo starts endMarkerSendLoop whenever end markers are enabled and the socket was dialled)",
-	"BLK|pfcpiface.(*UP4).SendEndMarkers|up4.endMarkerChan <- eMarker":       "channel of capacity 1024 created together with its consumer goroutine inside initOnce (R01.J3)",
+	"IDX|pfcpiface.(*UP4).sendCreate|all.pdrs[i]":                                                                "relational: sendCreate is only called for an establishment, where the handler appends every PDR to session.pdrs and to addPDRs in lock-step from empty lists, so len(all.pdrs) == len(updated.pdrs) (secondary check R01.J1: the establishment loop appends to both on every path)",
+	"IDX|pfcpiface.(*UP4).sendCreate|all.pdrs[i] #2":                                                             "same relational argument as the previous line (second use of the same index in the loop body)",
+	"NIL|pfcpiface.releaseAllocatedIPs|ippool.DeallocIP(session.localSEID)":                                      "reached only for a PDR with allocIPFlag set, which parseUEAddressIE sets only after ippool.LookupOrAllocIP succeeded on a non-nil pool (secondary check R01.J5: the store of allocIPFlag is dominated by the nil check and the successful allocation)",
+	"IDX|pfcpiface.(*PFCPSession).MarkSessionQer|s.pdrs[i].qerIDList[:idx]":                                      "findItemIndex returns a value in [0, len(slice)] (loop index or len) and the use is guarded by idx != len(s.pdrs[i].qerIDList) (secondary check R01.J2 on findItemIndex's returns)",
+	"IDX|pfcpiface.(*PFCPSession).MarkSessionQer|s.pdrs[i].qerIDList[idx+1:]":                                    "same guard as the previous line: idx < len, so idx+1 <= len",
+	"BLK|pfcpiface.(*PFCPConn).shutdownConn|pConn.done <- rAddr":                                                 "node-level completion channel with capacity 100, drained by PFCPNode.Serve and, at stop, by waitForPFCPConns; never closed (C10 R10.2)",
+	"BLK|pfcpiface.(*bess).SendEndMarkers|b.endMarkerChan <- eMarker":                                            "channel of capacity 1024 created in SetUpfInfo; reported under C14/C10 scope only if the consumer loop is missing (R01.J3 checks that SetUpfInfo starts endMarkerSendLoop whenever end markers are enabled and the socket was dialled)",
+	"BLK|pfcpiface.(*UP4).SendEndMarkers|up4.endMarkerChan <- eMarker":                                           "channel of capacity 1024 created together with its consumer goroutine inside initOnce (R01.J3)",
 	"EXIT|pfcpiface.(*pdr).parseApplicationID|logger.PfcpLog.Fatalln(\"mismatch in App ID\", appID, apfd.appID)": "unreachable while every writer of PFCPConn.appPFDs stores a record whose appID equals its key (secondary check R01.J4 on the map's writers)",
 }
 
@@ -1062,7 +1062,6 @@ func sortedFuncs(w *World, m map[*ssa.Function]bool) []*ssa.Function {
 	return out
 }
 
-
 // producerCall: the call whose result the (possibly nested) field load is taken from.
 func producerCall(v ssa.Value) *ssa.Call {
 	for i := 0; i < 8; i++ {
@@ -1111,7 +1110,6 @@ func (w *World) flowDescPostcondition() (bool, string) {
 	}
 	return true, "parseFlowDesc succeeds only with both networks set (src.IPNet != nil and dst.IPNet != nil on every success return)"
 }
-
 
 // mapKeyAlwaysPresent: m is a load of a struct field holding a map. The field is assigned in exactly
 // one function (the initialiser), nothing else adds to or deletes from the map, and every return of
